@@ -534,3 +534,56 @@ def db_lookup(h):
                 if got != valid:
                     return {"reproduced": True, "call": "CheckCategoryUnit(%r, %r)" % (c, u), "observed": got, "expected": valid}
     return {"reproduced": False}
+
+
+@probe("obtain")
+def obtain(h):
+    """C07: ObtainQuantity interning, composing-map ownership (pairs are new lists), captions"""
+    from collections import OrderedDict
+    from barril.units import ObtainQuantity, Scalar
+
+    # composing-map forms with tuple pairs / the caller's own dict
+    for pair in ((lambda u, e: (u, e)), (lambda u, e: [u, e])):
+        d = OrderedDict([("length", pair("m", 2)), ("time", pair("s", -1))])
+        q = ObtainQuantity(d)
+        m = q.GetCategoryToUnitAndExps()
+        if m is d or any(not isinstance(v, list) for v in m.values()):
+            try:
+                r = Scalar(q, 1.0) + Scalar(ObtainQuantity(OrderedDict([("length", ["cm", 2]), ("time", ["s", -1])])), 1.0)
+                obs = repr(r)
+            except Exception as e:
+                obs = repr(e)
+            return {"reproduced": True, "call": "ObtainQuantity(%r)" % d, "observed": "composing map %r (shared with the caller: %s); arithmetic with it: %s" % (m, m is d, obs), "expected": "a map owned by the quantity whose [unit, exp] pairs are lists"}
+    q1 = ObtainQuantity([("m", 2)], ["length"])
+    if any(not isinstance(v, list) for v in q1.GetCategoryToUnitAndExps().values()):
+        return {"reproduced": True, "call": "ObtainQuantity([('m', 2)], ['length'])", "observed": repr(q1.GetCategoryToUnitAndExps()), "expected": "list pairs"}
+    # captions distinguish interned quantities; repeated requests are identical
+    reqs = [
+        lambda: ObtainQuantity(OrderedDict([("length", ["m", 2])]), None, "Caption A"),
+        lambda: ObtainQuantity(OrderedDict([("length", ["m", 2])]), None, "Caption B"),
+        lambda: ObtainQuantity(OrderedDict([("length", ["m", 2])])),
+        lambda: ObtainQuantity("m", "length", "Caption A"),
+        lambda: ObtainQuantity("m", "length"),
+        lambda: ObtainQuantity("m", "depth"),
+        lambda: ObtainQuantity("cm", "length"),
+        lambda: ObtainQuantity("m"),
+        lambda: ObtainQuantity("bbl/ft", "area"),
+        lambda: ObtainQuantity("bbl/ft"),
+    ]
+    qs = [r() for r in reqs]
+    for i, r in enumerate(reqs):
+        if r() is not qs[i]:
+            return {"reproduced": True, "call": "request %d repeated" % i, "observed": "a different object", "expected": "the identical object"}
+    expect_caps = ["Caption A", "Caption B", "", "Caption A", "", "", "", "", "", ""]
+    for q, c in zip(qs, expect_caps):
+        if (q.GetUnknownCaption() or "") != c:
+            return {"reproduced": True, "call": "caption of %r" % q, "observed": q.GetUnknownCaption(), "expected": c}
+    db = qs[0].GetUnitDatabase()
+    if qs[7].GetCategory() != db.GetDefaultCategory("m") or qs[9].GetCategory() != db.GetDefaultCategory("bbl/ft"):
+        return {"reproduced": True, "call": "ObtainQuantity('bbl/ft') after ObtainQuantity('bbl/ft', 'area')", "observed": qs[9].GetCategory(), "expected": db.GetDefaultCategory("bbl/ft")}
+    for i in range(len(qs)):
+        for j in range(len(qs)):
+            same = (i == j) or {i, j} == {4, 7}
+            if (qs[i] == qs[j]) != same or (same and hash(qs[i]) != hash(qs[j])):
+                return {"reproduced": True, "call": "requests %d and %d" % (i, j), "observed": "equal=%s" % (qs[i] == qs[j]), "expected": "equal=%s with equal hashes" % same}
+    return {"reproduced": False}
